@@ -4,7 +4,7 @@ namespace AsmjitVerif.Reuse
 
 /-- lifecycle and configuration operations (everything except code generation proper) -/
 def Op.lifecycle : Op → Bool
-  | .world _ _ | .init _ | .reset _ | .reinit | .attach _ | .detach _ | .hlogger _ | .elogger _ _ | .diag _ _ | .dump => true
+  | .world _ _ | .init _ | .initb _ _ | .relocate _ | .reset _ | .reinit | .attach _ | .detach _ | .hlogger _ | .elogger _ _ | .diag _ _ | .dump => true
   | _ => false
 
 theorem updAt_length {α : Type} (l : List α) (i : Nat) (f : α → α) : (updAt l i f).length = l.length := by
